@@ -21,6 +21,7 @@ import JaqVerif.Lemmas.C16Load
 import JaqVerif.Lemmas.C16Resolve
 import JaqVerif.Lemmas.C16Search
 import JaqVerif.Lemmas.C16Sim
+import JaqVerif.Lemmas.C16Cycle
 
 namespace Jaq.C16
 
@@ -57,6 +58,56 @@ theorem cycle_is_error {P S B : Type} [BEq P] [LawfulBEq P] (read : Reader P S B
     find read (fuel + 1) parent st s =
       some ({ st with trace := st.trace ++ [(parent, s)] }, .error circularMsg) :=
   find_open read fuel parent st s path src hread hopen hnew
+
+/-- **Global form.**  Let the reader be confined to a finite set of paths `U`, answer every path
+    always with the same file (`content`), and never answer the prelude's placeholder path.
+    If the file graph (`Edge`: `p → q` when the header of `p` has an `include`/`import` that the
+    reader resolves to `q`) has a cycle `q →⁺ q` that is reachable from the main file, then for
+    every `fuel > |U|` the load ENDS (never loops), FAILS, and the errors it returns contain
+    "circular include/import" for some module — whatever else is wrong with other files. -/
+theorem cycle_is_error_global {P S B : Type} [BEq P] [LawfulBEq P] (read : Reader P S B) (content : P → Src S B)
+    (U : List P) (hU : ∀ parent s p src, read parent s = .ok (p, src) → p ∈ U)
+    (hcons : ∀ parent s p src, read parent s = .ok (p, src) → src = content p)
+    (dflt : P) (hnd : ∀ parent s p src, read parent s = .ok (p, src) → p ≠ dflt)
+    (fuel : Nat) (hfuel : U.length < fuel) (prelude : B) (mainPath : P) (mdeps : List (Directive S)) (mbody : B)
+    (q : P) (hreach : Reach read content mainPath mdeps q) (hcyc : Path (Edge read content) q q) :
+    ∃ st errs, load read fuel dflt prelude mainPath (.ok mdeps mbody) = some (st, .err errs) ∧
+      ∃ p l s, (p, ModErr.io l) ∈ errs ∧ (s, circularMsg) ∈ l := by
+  obtain ⟨⟨st, res⟩, h⟩ := load_total read U hU fuel hfuel dflt prelude mainPath (.ok mdeps mbody)
+  obtain ⟨errs, rfl, hc⟩ := load_cycle read content hcons dflt hnd fuel prelude mainPath mdeps mbody st res h q hreach hcyc
+  exact ⟨st, errs, h, hc⟩
+
+/-- the hypotheses are satisfiable: main includes `a`, `a` includes `b`, `b` includes `a` -/
+example :
+    let read : Reader String String Unit := fun _ s =>
+      if s = "a" then .ok ("a", .ok [⟨"b", none⟩] ()) else if s = "b" then .ok ("b", .ok [⟨"a", none⟩] ())
+      else .error "file not found"
+    let content : String → Src String Unit := fun p =>
+      if p = "a" then .ok [⟨"b", none⟩] () else if p = "b" then .ok [⟨"a", none⟩] () else .bad
+    (∀ parent s p src, read parent s = .ok (p, src) → p ∈ ["a", "b"]) ∧
+    (∀ parent s p src, read parent s = .ok (p, src) → src = content p) ∧
+    (∀ parent s p src, read parent s = .ok (p, src) → p ≠ "") ∧
+    Reach read content "main" [⟨"a", none⟩] "a" ∧ Path (Edge read content) "a" "a" := by
+  intro read content
+  have hr : ∀ parent s p src, read parent s = .ok (p, src) →
+      (p = "a" ∧ src = .ok [⟨"b", none⟩] ()) ∨ (p = "b" ∧ src = .ok [⟨"a", none⟩] ()) := by
+    intro parent s p src h
+    simp only [read] at h
+    split at h
+    · cases h; exact .inl ⟨rfl, rfl⟩
+    · split at h
+      · cases h; exact .inr ⟨rfl, rfl⟩
+      · cases h
+  refine ⟨?_, ?_, ?_, ?_, ?_⟩
+  · intro parent s p src h
+    rcases hr parent s p src h with ⟨rfl, _⟩ | ⟨rfl, _⟩ <;> simp
+  · intro parent s p src h
+    rcases hr parent s p src h with ⟨rfl, rfl⟩ | ⟨rfl, rfl⟩ <;> rfl
+  · intro parent s p src h
+    rcases hr parent s p src h with ⟨rfl, _⟩ | ⟨rfl, _⟩ <;> decide
+  · exact Reach.root ⟨"a", none⟩ "a" (.ok [⟨"b", none⟩] ()) (by simp) rfl rfl
+  · exact Path.cons "a" "b" "a" ⟨[⟨"b", none⟩], (), ⟨"b", none⟩, .ok [⟨"a", none⟩] (), rfl, by simp, rfl, rfl⟩
+      (Path.single "b" "a" ⟨[⟨"a", none⟩], (), ⟨"a", none⟩, .ok [⟨"b", none⟩] (), rfl, by simp, rfl, rfl⟩)
 
 /-- A successful load contains no failed module, and its dependency relation is well-founded:
     every module refers only to modules with a smaller index, the main module only to loaded
@@ -230,6 +281,48 @@ theorem var_index_correct {V : Type} (locals : List (Bind × V)) (imp : List ((S
         have : i - (locals.map (·.2)).length - ((imp.map (·.2)).reverse).length = i - j := by
           simp at h1 ⊢; omega
         rw [this]; exact he2
+
+/-- `var_index_correct` for the vector that `real_main` builds
+    (`[--arg…, --rawfile…, --slurpfile…, --argjson…, $ARGS, $ENV, input_filename, imported data…]`
+    through `Vars::new`): in EVERY module `cur`, under any binders, the index the compiler
+    computes for `$x` from the names `parse_compile` gives it points at the slot holding: the
+    innermost local `$x`, else the latest data import of module `cur` named `$x`, else the
+    latest command-line variable of that name; undefined iff there is none. -/
+theorem var_index_correct_cli {V : Type} (c : CliVars V) (fname : V) (locals : List (Bind × V))
+    (imp : List ((String × Nat) × V)) (cur : Nat) (x : String) :
+    (varIndex (locals.map (·.1)) (imp.map (·.1)) cur ((cliGlobals c fname).map (·.1)) x = none →
+        specVar locals imp cur (cliGlobals c fname) x = none) ∧
+    (∀ i, varIndex (locals.map (·.1)) (imp.map (·.1)) cur ((cliGlobals c fname).map (·.1)) x = some i →
+        ∃ v, (realMainEnv c fname locals imp)[i]? = some v ∧ specVar locals imp cur (cliGlobals c fname) x = some v) := by
+  have h := var_index_correct locals imp cur (cliGlobals c fname) x
+  have he : realMainEnv c fname locals imp = envOf locals imp (cliGlobals c fname) := by
+    simp [realMainEnv, envOf, varsNew, List.reverse_append]
+  rw [he]
+  exact h
+
+/-- `$ENV` and `input_filename` (= `$!input_filename` of the prelude, module 0) mean the same
+    in every module whatever named variables were given (`--arg ENV x` does not shadow `$ENV`:
+    it is bound earlier), unless the module binds that name itself -/
+theorem env_and_input_filename_in_every_module {V : Type} (c : CliVars V) (fname : V) (locals : List (Bind × V))
+    (imp : List ((String × Nat) × V)) (cur : Nat) (x : String)
+    (hl : locals.find? (fun e => e.1 = .var x) = none)
+    (hi : imp.reverse.find? (fun e => x = e.1.1 ∧ e.1.2 = cur) = none) :
+    (x = "$ENV" → specVar locals imp cur (cliGlobals c fname) x = some c.env) ∧
+    (x = "$ARGS" → specVar locals imp cur (cliGlobals c fname) x = some c.args) ∧
+    (x = "$!input_filename" → specVar locals imp cur (cliGlobals c fname) x = some fname) := by
+  have e1 : ("$" ++ "!input_filename" : String) = "$!input_filename" := by decide
+  have e2 : ("$" ++ "ENV" : String) = "$ENV" := by decide
+  have e3 : ("$" ++ "ARGS" : String) = "$ARGS" := by decide
+  unfold specVar
+  rw [hl, hi]
+  refine ⟨?_, ?_, ?_⟩ <;> intro hx <;> subst hx <;>
+    simp [cliGlobals, binds, List.reverse_append, e1, e2, e3]
+
+/-- a named variable given twice: the later KIND wins (`--argjson` over `--slurpfile` over
+    `--rawfile` over `--arg`), whatever the order on the command line -/
+example : specVar (V := Nat) [] [] 3
+    (cliGlobals { arg := [("a", 1)], rawfile := [], slurpfile := [], argjson := [("a", 2)], args := 0, env := 0 } 9) "$a"
+    = some 2 := by decide
 
 /-- a module definition is called with `skip = vars.total`: its body starts from the environment
     without any local slot of the caller -/
